@@ -142,4 +142,91 @@ def PluralsWfK : List (Str × PV) → Bool
   | [] => true
   | (_, x) :: xs => PluralsWf x && PluralsWfK xs
 
+/-- is the `count` argument a literal? (then `populate` selects one branch and does not look at the others) -/
+def isLitCount (args : List (Str × PV)) : Bool :=
+  match AMap.get? Foreign.countArgName args with
+  | some (.lit _) => true
+  | _ => false
+
+mutual
+/-- the value is a subkey group, or contains one at a place `populate` is certain to visit:
+    below components, blocs and resolved foreign keys; and — when the count argument is not a
+    literal (`lit = false`) — in any range branch or plural form. -/
+def HasSubkeys (lit : Bool) : PV → Bool
+  | .subkeys _ => true
+  | .fk (.set i) => HasSubkeys lit i
+  | .fk (.notSet _ _) => false
+  | .comp _ i => HasSubkeys lit i
+  | .bloc l => HasSubkeysL lit l
+  | .ranges _ _ bs => !lit && HasSubkeysB lit bs
+  | .plurals _ _ o fs => !lit && (HasSubkeys lit o || HasSubkeysF lit fs)
+  | .dflt => false
+  | .lit _ => false
+  | .var _ _ => false
+def HasSubkeysL (lit : Bool) : List PV → Bool
+  | [] => false
+  | x :: xs => HasSubkeys lit x || HasSubkeysL lit xs
+def HasSubkeysB (lit : Bool) : List (Range × PV) → Bool
+  | [] => false
+  | (_, x) :: xs => HasSubkeys lit x || HasSubkeysB lit xs
+def HasSubkeysF (lit : Bool) : List (Form × PV) → Bool
+  | [] => false
+  | (_, x) :: xs => HasSubkeys lit x || HasSubkeysF lit xs
+end
+
+/-- the only way `populate` can panic: the count argument is a literal number `l`, some plural of
+    rule type `rule` is supported in the locale, and the oracle table has no category for `l` -/
+def PanicWitness (orc : Oracle) (locale : Str) (args : List (Str × PV)) (p : String) : Prop :=
+  p = "oracle: plural category missing" ∧
+  ∃ (l : Lit) (d : Dec) (rule : RuleTy),
+    AMap.get? Foreign.countArgName args = some (.lit l) ∧ litDec l = some d ∧
+    orc.cats locale rule ≠ none ∧ orc.cat locale rule (Foreign.operandKey l) = none
+
+/-- the oracle has a category for every literal number in every supported rule type of the locale
+    (ICU4X's `category_for` is total; the table handed to the model must contain the operands used) -/
+def OracleTotal (orc : Oracle) (locale : Str) : Prop :=
+  ∀ (rule : RuleTy) (l : Lit) (d : Dec), litDec l = some d → orc.cats locale rule ≠ none →
+    orc.cat locale rule (Foreign.operandKey l) ≠ none
+
+/-! ### Resolution: world invariant, fuel -/
+
+/-- every value stored in the world is a subkey group (rejected as a target anyway) or `SetClosed` -/
+def WorldClosed (w : World) : Prop :=
+  ∀ top target value, w.getValueAt top target = .ok (some value) →
+    (∃ l, value = .subkeys l) ∨ SetClosed value = true
+
+
+/-- `r'` is `r` computed with more fuel: either `r` ran out of fuel, or nothing changed -/
+def FuelLe {α : Type} (r r' : Res α) : Prop := r = .panic "fuel" ∨ r' = r
+
+
+mutual
+/-- fuel that suffices to walk over a value that has no unresolved foreign key -/
+def fuelNeed : PV → Nat
+  | .comp _ i => fuelNeed i + 1
+  | .bloc l => fuelNeedL l + 1
+  | .ranges _ _ bs => fuelNeedB bs + 1
+  | .plurals _ _ o fs => max (fuelNeed o) (fuelNeedF fs) + 1
+  | .fk _ => 1
+  | .subkeys _ => 1
+  | .dflt => 1
+  | .lit _ => 1
+  | .var _ _ => 1
+def fuelNeedL : List PV → Nat
+  | [] => 1
+  | x :: xs => max (fuelNeed x) (fuelNeedL xs) + 1
+def fuelNeedB : List (Range × PV) → Nat
+  | [] => 1
+  | (_, x) :: xs => max (fuelNeed x) (fuelNeedB xs) + 1
+def fuelNeedF : List (Form × PV) → Nat
+  | [] => 1
+  | (_, x) :: xs => max (fuelNeed x) (fuelNeedF xs) + 1
+end
+
+
+def fuelNeedK : List (Str × PV) → Nat
+  | [] => 1
+  | (_, x) :: xs => max (fuelNeed x) (fuelNeedK xs) + 1
+
+
 end I18nVerif.Subst
